@@ -208,7 +208,10 @@ def run_task(task):
             okm = False
             if isinstance(last, Opaque) and last.tag == 'formatted' and last.data:
                 tmpl, fargs = last.data
-                val = deref(fargs[0].data) if fargs and isinstance(fargs[0], Opaque) else (deref(fargs[0]) if fargs else None)
+                val = fargs[0] if fargs else None
+                if isinstance(val, Opaque): val = val.data
+                if isinstance(val, tuple): val = val[0]
+                val = deref(val) if val is not None else None
                 okm = tmpl is not None and b' issues found.' in tmpl and simp(eq(val, ndisp)) is True
         ex.oblige(okm, 'summary', 'summary line states the number of displayed diagnostics (%d), got %r' % (ndisp, last))
         if task['sarif']:
